@@ -20,8 +20,14 @@ def ff {σ : Type} (m : Mon σ) (ls : List Label) : Option Nat := m.firstFail m.
 
 def runMonitor (pid : String) (c : MonCtx) (ls : List Label) : Option (Option Nat) :=
   match pid with
-  | "C01" => some (ff (monC01 c) ls)
-  | "C02" => some (ff (monC02 c) ls)
+  | "C01" => some (match ff (monC01 c) ls with
+      | some k => some k
+      | none => ff monWf01 ls)      -- the theorem's hypothesis (fresh message / operation ids) holds of the trace
+  | "C02" => some (match ff (monC02 c) ls with
+      | some k => some k
+      | none => match ff (monC02t c) ls with
+        | some k => some k
+        | none => ff (monC02wf c) ls)
   | "C03" => some (match ff (monC03 c) ls with
       | some k => some k
       | none => ff (monC03q c) ls)
@@ -31,7 +37,11 @@ def runMonitor (pid : String) (c : MonCtx) (ls : List Label) : Option (Option Na
   | "C05" => some (match ff (monC05 c) ls with
       | some k => some k
       | none => ff (monC05q c) ls)
-  | "C06" => some (ff (monC06 c) ls)
+  | "C06" => some (match ff (monC06 c) ls with
+      | some k => some k
+      | none => (match ff (monC06t c) ls with
+        | some k => some k
+        | none => ff monUniq ls))
   | "C07" => some (match ff (monC07 c) ls with
       | some k => some k
       | none => ff (monC07o c) ls)
